@@ -44,6 +44,7 @@ def plan(tier, seed):
     for s in common.shard_seeds(seed, n):
         specs.append({'kind': 'gen', 'seed': s, 'count': per})
     specs.append({'kind': 'examples', 'steps': 1_500_000 if tier == 'quick' else 8_000_000})
+    specs.append({'kind': 'illegal'})
     return specs
 
 
@@ -117,6 +118,15 @@ def run_shard(spec):
                     run_one(res, src, args, word, True, tag, sites)
             if len(res['samples']) < 1:
                 res['samples'].append({'gen': tag, 'source': src[:1200], 'args': args})
+    elif spec['kind'] == 'illegal':
+        # programs that must be rejected; an accepted one is still subject to "never halts"
+        for tag, src in placement.illegal_programs():
+            accepted = False
+            for a in placement.INPUTS:
+                for unchecked in (False, True):
+                    o = run_one(res, src, list(a), 2, unchecked, 'illegal-if-accepted:' + tag, sites)
+                    accepted = accepted or o is not None
+            runner.count(res, 'illegal_placements_accepted_and_run' if accepted else 'illegal_placements_rejected')
     else:
         for path in sorted(glob.glob(os.path.join(env.REPO, 'examples', '*.hid'))):
             name = os.path.basename(path)
